@@ -1008,6 +1008,7 @@ def _generator_locals_to_loops(stmts, repo, f, new_funcs, resolve_helper):
     statement, so the arguments are evaluated at the same point)   ->   for x in gen(args): BODY"""
     out = []
     i = 0
+    mention_count = None
     while i < len(stmts):
         st = stmts[i]
         nxt = stmts[i + 1] if i + 1 < len(stmts) else None
@@ -1024,10 +1025,15 @@ def _generator_locals_to_loops(stmts, repo, f, new_funcs, resolve_helper):
         # the same with statements in between (the generator is created before a `with` opens and consumed inside it): a generator's
         # body does not start before the first item is requested, so only the evaluation of the call's arguments happens early -
         # plain names / paths / constants that nothing in the function re-binds
-        if isinstance(st, ast.Assign) and len(st.targets) == 1 and isinstance(st.targets[0], ast.Name) and isinstance(st.value, ast.Call):
+        if isinstance(st, ast.Assign) and len(st.targets) == 1 and isinstance(st.targets[0], ast.Name) and isinstance(st.value, ast.Call) \
+                and any(isinstance(s2, (ast.For, ast.With, ast.AsyncWith, ast.If)) for s2 in stmts[i + 1:]):
             g = st.targets[0].id
-            mentions = [x for x in ast.walk(f.node) if isinstance(x, ast.Name) and x.id == g]
-            if len(mentions) == 2:
+            if mention_count is None:
+                mention_count = {}
+                for x in ast.walk(f.node):
+                    if isinstance(x, ast.Name):
+                        mention_count[x.id] = mention_count.get(x.id, 0) + 1
+            if mention_count.get(g) == 2:
                 def find_loop(lst):
                     for s2 in lst:
                         if isinstance(s2, ast.For) and isinstance(s2.iter, ast.Name) and s2.iter.id == g:
